@@ -5,6 +5,9 @@ go 1.26.8
 require golang.org/x/tools v0.50.0
 
 require (
+	github.com/go-faster/xor v1.0.0 // indirect
 	golang.org/x/mod v0.41.0 // indirect
 	golang.org/x/sync v0.23.0 // indirect
 )
+
+require github.com/gotd/ige v0.3.0
